@@ -51,7 +51,20 @@ def generate(seed, tier="quick", **kw):
         for k in lay["knobs"]:
             k["set_key"] = layouts[0]["knobs"][0]["set_key"]
             k["urandom_key"] = layouts[0]["knobs"][0]["urandom_key"]
-    return {"family": NAME, "seed": seed, "pool": pool, "secrets": secrets, "opts": o, "layouts": layouts}
+    pre_b = None
+    if r.random() < 0.5:
+        # library use: the process that runs layout B has already anonymized these very lines with other options
+        o2 = dict(o)
+        o2["salt"] = GC.gen_salt(r, True)
+        for f in ("pwd", "ip"):
+            if r.random() < 0.4:
+                o2[f] = not o2[f]
+        if r.random() < 0.6:
+            o2["words"] = list(o["words"]) if o["words"] and r.random() < 0.6 else ["kiwi", "zzother"]
+        if not (o2["pwd"] or o2["ip"] or o2["words"] or o2["as"]):
+            o2["ip"] = True
+        pre_b = {"opts": o2}
+    return {"family": NAME, "seed": seed, "pool": pool, "secrets": secrets, "opts": o, "layouts": layouts, "pre_b": pre_b}
 
 
 def _file_bytes(plan, f):
@@ -83,7 +96,13 @@ def check(plan):
                 probes["unterminated_files"] += int(not f["final_newline"])
                 probes["crlf_files"] += int(f["crlf"])
             step = {"entry": lay["entry"], "opts": o, "in": "in", "out": "out", "dump": None}
-            H = W.run_world({"disk": disk, "procs": [{"knobs": lay["knobs"][ri % len(lay["knobs"])], "faults": [], "steps": [step]}]})
+            pre = []
+            if li == 1 and plan.get("pre_b"):
+                probes["pre_same_lines"] = probes.get("pre_same_lines", 0) + 1
+                text = "".join(W._decode_universal(disk["files"]["in/" + f["name"]]) + "\n" for f in run)
+                pre = [{"kind": "lines", "opts": plan["pre_b"]["opts"], "text": text}]
+            H = W.run_world({"disk": disk, "procs": [{"knobs": lay["knobs"][ri % len(lay["knobs"])], "faults": [], "pre": pre,
+                                                        "steps": [step]}]})
             h = H["procs"][0]
             steps += h["nsys"] + 1
             digest_items.append(W.public_hist(h))
@@ -192,6 +211,10 @@ def _res(plan, V, probes, steps, digest_items, organic):
 
 
 def shrink_candidates(plan):
+    if plan.get("pre_b"):
+        p = copy.deepcopy(plan)
+        p["pre_b"] = None
+        yield p
     n = len(plan["pool"])
     if n > 1:
         for kept in core.drop_chunks(list(range(n)), 1):
